@@ -4,6 +4,7 @@ import (
 	"crypto"
 	"crypto/aes"
 	"crypto/cipher"
+	"crypto/ecdh"
 	"crypto/ecdsa"
 	"crypto/hmac"
 	"crypto/md5"
@@ -41,6 +42,7 @@ type Profile struct {
 	BuildCKX func(p *Peer, pms []byte) []byte           // ClientKeyExchange body for the server in p.PeerCerts
 	OpenCKX  func(p *Peer, body []byte) ([]byte, error) // pre-master secret (nil, nil when the peer holds no key)
 	CheckSKE func(p *Peer, body []byte)
+	BuildSKE func(p *Peer) []byte // ServerKeyExchange body (nil: the GM signature form)
 	SignCV   func(p *Peer) []byte // CertificateVerify body over p.Transcript
 	CheckCV  func(p *Peer, body []byte)
 	CertReq  func(p *Peer) []byte
@@ -337,3 +339,134 @@ func (p *Peer) UseTLSVersion(v uint16) {
 	}
 	p.Vers, p.Suites = v, []uint16{SuiteAESCBC}
 }
+
+// TLS 1.2 ECDHE ------------------------------------------------------------------------------------
+
+const (
+	SuiteECDHERSAGCM   = 0xc02f // TLS_ECDHE_RSA_WITH_AES_128_GCM_SHA256
+	SuiteECDHEECDSAGCM = 0xc02b // TLS_ECDHE_ECDSA_WITH_AES_128_GCM_SHA256
+)
+
+// ECDHEParams is the signed part of the ServerKeyExchange: named curve secp256r1 and the point.
+func ECDHEParams(point []byte) []byte {
+	return append([]byte{3, 0, 23, byte(len(point))}, point...)
+}
+
+// SignECDHE signs client_random || server_random || params (TLS 1.2, SHA-256) with the peer's key.
+func SignECDHE(p *Peer, cr, sr, params []byte) (alg byte, sig []byte) {
+	d := sum256(append(append(append([]byte{}, cr...), sr...), params...))
+	switch k := p.ID.TLSKey.(type) {
+	case *ecdsa.PrivateKey:
+		sig, _ = ecdsa.SignASN1(p.Rand, k, d)
+		return sigECDSA, sig
+	case *rsa.PrivateKey:
+		sig, _ = rsa.SignPKCS1v15(nil, k, crypto.SHA256, d)
+		return sigRSA, sig
+	}
+	return sigRSA, nil
+}
+
+func ecdhGenerate(p *Peer) {
+	if p.ECDHPriv != nil {
+		return
+	}
+	for {
+		k := p.rnd(32)
+		priv, err := ecdh.P256().NewPrivateKey(k)
+		if err == nil {
+			p.ECDHPriv, p.ECDHOwn = k, priv.PublicKey().Bytes()
+			return
+		}
+	}
+}
+
+func ecdhShared(priv, peer []byte) ([]byte, error) {
+	k, err := ecdh.P256().NewPrivateKey(priv)
+	if err != nil {
+		return nil, err
+	}
+	pub, err := ecdh.P256().NewPublicKey(peer)
+	if err != nil {
+		return nil, err
+	}
+	return k.ECDH(pub)
+}
+
+// TLS12ECDHE is RFC 5246 + RFC 4492 with ephemeral ECDH on P-256 (AES-128-GCM), signed by the
+// server's RSA or ECDSA key. The server identity's TLSKey signs the parameters.
+var TLS12ECDHE = func() *Profile {
+	pr := *TLS12RSA
+	pr.Name = "TLS1.2-ECDHE"
+	pr.Suites = []uint16{SuiteECDHERSAGCM, SuiteECDHEECDSAGCM}
+	pr.GCM = func(uint16) bool { return true }
+	pr.HasSKE = true
+	pr.BuildSKE = func(p *Peer) []byte {
+		ecdhGenerate(p)
+		params := ECDHEParams(p.ECDHOwn)
+		alg, sig := SignECDHE(p, p.CR, p.SR, params)
+		b := append(append([]byte{}, params...), hashSHA256, alg)
+		return append(b, SKEBody(sig)...)
+	}
+	pr.CheckSKE = func(p *Peer, body []byte) {
+		if len(body) < 4 || body[0] != 3 || body[1] != 0 || body[2] != 23 {
+			return
+		}
+		n := int(body[3])
+		if len(body) < 4+n+4 {
+			return
+		}
+		p.ECDHPeer = append([]byte{}, body[4:4+n]...)
+		params, rest := body[:4+n], body[4+n:]
+		sig := rest[4:]
+		ok := rest[0] == hashSHA256 && int(rest[2])<<8|int(rest[3]) == len(sig)
+		if len(p.PeerCerts) == 0 {
+			return
+		}
+		c, err := x509.ParseCertificate(p.PeerCerts[0])
+		if err != nil {
+			return
+		}
+		d := sum256(append(append(append([]byte{}, p.CR...), p.SR...), params...))
+		switch k := c.PublicKey.(type) {
+		case *ecdsa.PublicKey:
+			ok = ok && rest[1] == sigECDSA && ecdsa.VerifyASN1(k, d, sig)
+		case *rsa.PublicKey:
+			ok = ok && rest[1] == sigRSA && rsa.VerifyPKCS1v15(k, crypto.SHA256, d, sig) == nil
+		}
+		p.Checks["ske-signature"] = ok
+	}
+	pr.BuildCKX = func(p *Peer, pms []byte) []byte {
+		// the pre-master secret is the shared x coordinate, not the random value the caller prepared
+		ecdhGenerate(p)
+		if p.ECDHPeer != nil {
+			if z, err := ecdhShared(p.ECDHPriv, p.ECDHPeer); err == nil {
+				p.PMS = z
+			}
+		}
+		return append([]byte{byte(len(p.ECDHOwn))}, p.ECDHOwn...)
+	}
+	pr.OpenCKX = func(p *Peer, body []byte) ([]byte, error) {
+		if len(body) < 1 || int(body[0]) != len(body)-1 {
+			return nil, errors.New("gmref: ClientKeyExchange length")
+		}
+		if p.ECDHPriv == nil {
+			return nil, nil
+		}
+		return ecdhShared(p.ECDHPriv, body[1:])
+	}
+	return &pr
+}()
+
+// UseECDHE switches a peer to the TLS 1.2 ECDHE profile.
+func (p *Peer) UseECDHE() {
+	p.Prof, p.Vers, p.Suites = TLS12ECDHE, TLS12, []uint16{SuiteECDHERSAGCM, SuiteECDHEECDSAGCM}
+	// a client must announce the curve, the point format and the signature algorithms it accepts
+	p.HelloExt = []byte{
+		0, 10, 0, 4, 0, 2, 0, 23, // supported_groups: secp256r1
+		0, 11, 0, 2, 1, 0, // ec_point_formats: uncompressed
+		0, 13, 0, 6, 0, 4, hashSHA256, sigECDSA, hashSHA256, sigRSA, // signature_algorithms
+	}
+}
+
+// GenerateECDH makes sure the peer has an ephemeral P-256 key (ECDHE profile).
+func (p *Peer) GenerateECDH() { ecdhGenerate(p) }
